@@ -1,6 +1,7 @@
 CONSTANTS
   FieldNums <- Seq3
-  CountNums <- Counts2
+  PairNums <- Pairs0
+  CountNums <- Counts3
   MsgTypes <- Msgs2
   AdminTypes = {"UB"}
   CompNames <- Comps0
